@@ -5,6 +5,8 @@ package csptp
 
 import (
 	"errors"
+	"math"
+	"math/big"
 	"time"
 )
 
@@ -403,38 +405,52 @@ func DecodeResponseTLV(tlv *ResponseTLV, b []byte) error {
 	return nil
 }
 
+// oneWayDelay returns tb - ta - corr in nanoseconds. The raw difference of the
+// two timestamps is the result plus the correction and does not fit into a
+// Duration for results within the correction of the limits of a Duration
+// (Time.Sub would saturate), although the result does.
+func oneWayDelay(ta, tb time.Time, corr time.Duration) *big.Int {
+	d := big.NewInt(tb.Unix())
+	d.Sub(d, big.NewInt(ta.Unix()))
+	d.Mul(d, big.NewInt(1e9))
+	d.Add(d, big.NewInt(int64(tb.Nanosecond()-ta.Nanosecond())))
+	return d.Sub(d, big.NewInt(int64(corr)))
+}
+
+func durationFromInt(d *big.Int) time.Duration {
+	if !d.IsInt64() {
+		if d.Sign() < 0 {
+			return math.MinInt64
+		}
+		return math.MaxInt64
+	}
+	return time.Duration(d.Int64())
+}
+
 func C2SDelay(t0, t1 time.Time, t1Corr, utcCorr time.Duration) time.Duration {
-	return (t1.Sub(t0) - t1Corr) - utcCorr
+	d := oneWayDelay(t0, t1, t1Corr)
+	return durationFromInt(d.Sub(d, big.NewInt(int64(utcCorr))))
 }
 
 func S2CDelay(t2, t3 time.Time, t3Corr, utcCorr time.Duration) time.Duration {
-	return (t3.Sub(t2) - t3Corr) + utcCorr
+	d := oneWayDelay(t2, t3, t3Corr)
+	return durationFromInt(d.Add(d, big.NewInt(int64(utcCorr))))
 }
 
 func MeanPathDelay(t0, t1, t2, t3 time.Time, t1Corr, t3Corr time.Duration) time.Duration {
 	// The sum of the two terms is twice the delay and does not fit into a
 	// Duration for delays beyond about 146 years, although the delay itself
-	// does: then the terms are halved before they are added.
-	x := t1.Sub(t0) - t1Corr
-	y := t3.Sub(t2) - t3Corr
-	d := x + y
-	if (x < 0) == (y < 0) && (d < 0) != (x < 0) {
-		// x + y overflowed
-		return x/2 + y/2 + (x%2+y%2)/2
-	}
-	return d / 2
+	// does.
+	d := oneWayDelay(t0, t1, t1Corr)
+	d.Add(d, oneWayDelay(t2, t3, t3Corr))
+	return durationFromInt(d.Quo(d, big.NewInt(2)))
 }
 
 func ClockOffset(t0, t1, t2, t3 time.Time, t1Corr, t3Corr time.Duration) time.Duration {
 	// The difference of the two terms is twice the offset and does not fit
 	// into a Duration for offsets beyond about 146 years, although the offset
-	// itself does: then the terms are halved before they are subtracted.
-	x := t1.Sub(t0) - t1Corr
-	y := t3.Sub(t2) - t3Corr
-	d := x - y
-	if (x < 0) != (y < 0) && (d < 0) != (x < 0) {
-		// x - y overflowed
-		return x/2 - y/2 + (x%2-y%2)/2
-	}
-	return d / 2
+	// itself does.
+	d := oneWayDelay(t0, t1, t1Corr)
+	d.Sub(d, oneWayDelay(t2, t3, t3Corr))
+	return durationFromInt(d.Quo(d, big.NewInt(2)))
 }
